@@ -573,14 +573,17 @@ def _eventlog():
         pl = lat(rng, hi=0.005)
         sess = rng.choice([None, lat(rng, zero_p=0.0, hi=0.3)])
         c = ops_cfg(rng, ["append", "append", "append", "read", "join", "poll", "poll", "leave"], marks=[al, rci, rb, sess])
-        c.update(parts=rng.randint(1, 4), al=al, rl=rl, rci=rci, ret=rng.choice([None, "time", "size"]), rb=rb, pl=pl, sess=sess)
+        c.update(parts=rng.randint(1, 4), al=al, rl=rl, rci=rci, ret=rng.choice([None, "time", "size"]), rb=rb, pl=pl, sess=sess,
+                 assign=rng.choice([None, "range", "roundrobin", "sticky"]))
         return c
 
     def build(z, c):
         ret = {None: None, "time": TimeRetention(max_age_s=0.2), "size": SizeRetention(max_records=3)}[c.get("ret")]
         log = z.add(EventLog("log", num_partitions=int(c["parts"]), retention_policy=ret, append_latency=check_num(c["al"]),
                              read_latency=check_num(c["rl"]), retention_check_interval=check_num(c["rci"])))
-        grp = z.add(ConsumerGroup("group", log, rebalance_delay=check_num(c["rb"]), poll_latency=check_num(c["pl"]),
+        from happysimulator.components.streaming.consumer_group import RangeAssignment, RoundRobinAssignment, StickyAssignment
+        assign = {None: lambda: None, "range": RangeAssignment, "roundrobin": RoundRobinAssignment, "sticky": StickyAssignment}[c.get("assign")]()
+        grp = z.add(ConsumerGroup("group", log, assignment_strategy=assign, rebalance_delay=check_num(c["rb"]), poll_latency=check_num(c["pl"]),
                                   session_timeout=c.get("sess")))
         members = [z.sink(f"member{i}") for i in range(3)]
         joined = set()
